@@ -77,6 +77,7 @@ type pgen struct {
 	tag    string
 	funcs  []FuncSig // callable from here (qualified names for imports)
 	indent int
+	swDepth int // nesting depth of switch statements at the point of emission
 }
 
 func (g *pgen) fresh(prefix string) string {
@@ -436,10 +437,14 @@ func (g *pgen) block(env []variable, n int, depth int, inFunc, inLoop bool, uppe
 			default:
 				g.line("switch %s {", g.expr(t, env, 1))
 			}
+			g.swDepth++
 			for c := r.Range(0, 3); c > 0; c-- {
 				g.line("case %s:", g.expr(t, env, 1))
 				g.indent++
 				g.block(env, r.Range(0, g.f.MaxBody), depth+1, inFunc, inLoop, false)
+				if r.Chance(25) {
+					g.line("break") // break inside a switch is accepted by the parser
+				}
 				g.indent--
 			}
 			if r.Chance(60) {
@@ -448,9 +453,12 @@ func (g *pgen) block(env []variable, n int, depth int, inFunc, inLoop bool, uppe
 				g.block(env, r.Range(0, g.f.MaxBody), depth+1, inFunc, inLoop, false)
 				g.indent--
 			}
+			g.swDepth--
 			g.line("}")
 		case k < 16: // break/continue
-			if inLoop && r.Chance(50) {
+			if !inLoop && g.swDepth > 0 && r.Chance(50) {
+				g.line("break")
+			} else if inLoop && r.Chance(50) {
 				g.line("if %s {", g.expr("bool", env, 1))
 				g.indent++
 				g.line(r.Pick([]string{"break", "continue"}))
